@@ -58,10 +58,26 @@ def run_case(darsia, rng, tid, cfg, nextra, rgb, dtype, shape, probe_is_base):
         # without a cleaning filter the baseline may be replaced later: update(base=...) - the new baseline maps to zero,
         # other probes are taken relative to it
         probes += [("update", newbase_a), ("update", arr())]
+    new_extras = [arr() for _ in range(max(1, nextra))]
+    if nextra >= 1:
+        # the cleaning filter is learned again from ANOTHER series of baseline images: from then on probes are cleaned with the
+        # filter of that series (not with a mixture of the old and the new one)
+        probes += [("refilter", arr()), ("refilter", base_a.copy())]
     evs = []
     ca = None
     omit = (rng.random() < 0.5, rng.random() < 0.5)
     for j, probe_a in enumerate(probes):
+        if isinstance(probe_a, tuple) and probe_a[0] == "refilter":
+            if extras_a is not new_extras:
+                try:
+                    with warnings.catch_warnings():
+                        warnings.simplefilter("ignore")
+                        ca.find_cleaning_filter([image(x) for x in new_extras])
+                except Exception as ex:  # noqa
+                    evs.append({"tid": f"{tid}:{j}", "op": "run", "cfg": cfg, "rgb": int(rgb), "dtype": dtype, "raised": 1, "nextra": nextra, "call": j, "error": "find_cleaning_filter: " + repr(ex)[:160]})
+                    break
+                extras_a = new_extras
+            probe_a = probe_a[1]
         if isinstance(probe_a, tuple):
             if j == 3:
                 try:
